@@ -11,6 +11,9 @@ def run(tier, replay=None):
     rep.floor('validator result sites', sum(r.ok_sites + r.err_sites for r in results.values()), 14)
     rep.count('validators', ', '.join(sorted(validators.short_fn(f) for f in results)))
     subtag_api.run(prog, rep)
+    # values built by the compile-time macros belong to this property's domain as well: the macro witnesses of C16 (cached per tree)
+    from . import c16
+    c16.witness_family(rep, tier)
     rep.explanation = ('Abstract interpretation of each validator body over an exact domain of byte-string shapes: the union of '
                        'shapes at accepting returns is compared with the UTS #35 production (both inclusions), payload transforms '
                        'and error constants are read from the return value origins; quantifies over all byte strings.')
